@@ -93,10 +93,10 @@ def build_case(case):
              "planned": bool(ev.get("planned", False)), "real_t0": ev["t0"], "real_t1": ev.get("t1", ev["t0"])}
         if kind == "impulse":
             tid = NEW_TARGET_ID if ev.get("target") == "added" else tgt_ids[ev.get("target", 0)]
+            dv = [x * ev.get("dv_scale", 1.0) for x in ([0.0, 0.0, 1e-4] if ev.get("frame", "eci") == "eci" else [1e-4, 0.0, 0.0])]
             events.append({**base, "scope": "agent_propagation", "scope_instance_id": tid, "event_type": "impulse",
-                           "thrust_vector": [0.0, 0.0, 1e-4] if ev.get("frame", "eci") == "eci" else [1e-4, 0.0, 0.0],
-                           "thrust_frame": ev.get("frame", "eci"), "planned": m["planned"]})
-            m.update(kind="impulse", etype="impulse", ident=tid, who=T(tid), tgt=T(tid))
+                           "thrust_vector": dv, "thrust_frame": ev.get("frame", "eci"), "planned": m["planned"]})
+            m.update(kind="impulse", etype="impulse", ident=tid, who=T(tid), tgt=T(tid), dv=dv)
         elif kind == "burn":
             tid = tgt_ids[ev.get("target", 0)]
             events.append({**base, "scope": "agent_propagation", "scope_instance_id": tid, "event_type": "finite_burn",
@@ -218,6 +218,14 @@ def make_cases(ctx: Ctx, rng):
             if step > 3:
                 evs.insert(1, {"kind": "impulse", "t0": (j - 1) * step + 2, "planned": True, "frame": "ntw"})
             add(start, step, evs)
+            # two impulses of ONE target at the SAME instant (different delta-v; same and different frames), on a boundary
+            # and inside a step: both must be delivered and applied once
+            j = rng.randint(1, n)
+            add(start, step, [{"kind": "impulse", "t0": j * step, "planned": True},
+                              {"kind": "impulse", "t0": j * step, "planned": True, "dv_scale": 2.0}])
+            add(start, step, [{"kind": "impulse", "t0": (j - 1) * step + 1, "planned": False, "dv_scale": 3.0},
+                              {"kind": "impulse", "t0": (j - 1) * step + 1, "planned": (si + j) % 2 == 0, "frame": "ntw"},
+                              {"kind": "impulse", "t0": (j - 1) * step + 1, "planned": False}])
             # an impulse on each of two consecutive boundaries plus one in between (queue holds expired neighbours)
             if n >= 3:
                 j = rng.randint(1, n - 1)
